@@ -362,9 +362,9 @@ func main() {
 		by, model := ex.modelFor(o, tmp, "m", timeoutS)
 		if model != "" {
 			f.Model, f.ModelBy = trimModel(model), by
-			if !*noReplay {
-				f.Replay = ex.tryReplay(o, model, *repo, replayDir)
-			}
+		}
+		if !*noReplay && (o.Class == "safe" || o.Class == "ensures") {
+			f.Replay = ex.tryReplay(o, model, *repo, replayDir)
 		}
 		emit(f)
 	}
